@@ -25,7 +25,7 @@ Record opts := mk_opts {
 (* api.Pin *)
 Record pin := mk_pin { p_opts : opts; p_cid : N; p_ty : ptype; p_allocs : list N; p_depth : Z; p_ref : option N }.
 
-Definition pinset := list (N * pin).
+Notation pinset := (list (N * pin)) (only parsing).
 
 Definition set_factors (a b : Z) (o : opts) : opts :=
   mk_opts a b (o_name o) (o_mode o) (o_shard o) (o_ualloc o) (o_expire o) (o_meta o) (o_update o) (o_origins o).
